@@ -82,6 +82,9 @@ func (o c08Op) Name() string {
 	case "clearPrefixInChildLimit":
 		return fmt.Sprintf("clearPrefixInChildLimit(%s,%s,%d)", c08Child, o.k, o.limit)
 	}
+	if o.kind == "init" {
+		return "init(populated)"
+	}
 	return o.kind
 }
 
@@ -91,6 +94,8 @@ type c08State struct {
 	soft []verifmc.Violation
 	// outcome classes seen while applying (drained into the report by the harness)
 	outcomes []string
+	// the exploration from the pre-populated state starts with the pseudo operation init(populated)
+	needInit, inited bool
 }
 
 func (s *c08State) softf(sig, format string, a ...any) {
@@ -117,7 +122,31 @@ func c08HasMarker(ts *TrieState) bool {
 	return false
 }
 
-func c08Phi(ts *TrieState) *ref.C08Overlay {
+// c08BothMarks: child keys that the innermost storageDiff holds both as an upsert and as a deletion
+// (reads see the upsert, applyToTrie applies the deletion last).
+func c08BothMarks(ts *TrieState) map[string]bool {
+	out := map[string]bool{}
+	e := ts.transactions.Back()
+	if e == nil {
+		return out
+	}
+	cd := e.Value.(*storageDiff).childChangeSet[c08Child]
+	if cd == nil {
+		return out
+	}
+	for k := range cd.upserts {
+		if cd.deletes[k] {
+			out[k] = true
+		}
+	}
+	return out
+}
+
+func c08Phi(ts *TrieState) *ref.C08Overlay { return c08PhiOpt(ts, true) }
+
+// c08PhiOpt reads the private state.  withMarker: interpret a deletion mark on the child's *name* as
+// "the child is killed" (what the listing observers and applyToTrie do with it).
+func c08PhiOpt(ts *TrieState, withMarker bool) *ref.C08Overlay {
 	m := ref.C08New()
 	for k, v := range ts.state.Entries() {
 		if strings.HasPrefix(k, c08ChildPrefix) {
@@ -136,31 +165,32 @@ func c08Phi(ts *TrieState) *ref.C08Overlay {
 	for e := ts.transactions.Front(); e != nil; e = e.Next() {
 		d := e.Value.(*storageDiff)
 		l := &ref.C08Layer{Main: map[string]ref.C08Entry{}, Child: map[string]map[string]ref.C08Entry{}}
-		for k, v := range d.upserts {
-			l.Main[k] = ref.C08Entry{Present: true, Val: append([]byte{}, v...)}
-		}
 		for k, del := range d.deletes {
 			if del {
 				l.Main[k] = ref.C08Entry{}
 			}
 		}
+		for k, v := range d.upserts {
+			l.Main[k] = ref.C08Entry{Present: true, Val: append([]byte{}, v...)}
+		}
 		for c, cd := range d.childChangeSet {
 			if l.Child[c] == nil {
 				l.Child[c] = map[string]ref.C08Entry{}
-			}
-			for k, v := range cd.upserts {
-				l.Child[c][k] = ref.C08Entry{Present: true, Val: append([]byte{}, v...)}
 			}
 			for k, del := range cd.deletes {
 				if del {
 					l.Child[c][k] = ref.C08Entry{}
 				}
 			}
+			// a key held both as upsert and as deletion reads as the upsert (storageDiff.get)
+			for k, v := range cd.upserts {
+				l.Child[c][k] = ref.C08Entry{Present: true, Val: append([]byte{}, v...)}
+			}
 		}
 		// The deletes map is shared by main keys and child names: a mark on the child's name is
 		// what DeleteChild leaves behind; applyToTrie then removes the whole child (after the child
 		// changes), and the child listing observers report the child as missing.
-		if d.deletes[c08Child] {
+		if withMarker && d.deletes[c08Child] {
 			if l.Child[c08Child] == nil {
 				l.Child[c08Child] = map[string]ref.C08Entry{}
 			}
@@ -250,16 +280,134 @@ func c08KeyClass(before *ref.C08Overlay, ns, k string) string {
 	return "absent-key"
 }
 
-// c08Classify builds the signature of a state mismatch after a mutator from the mismatch itself.
-func c08Classify(o c08Op, before *ref.C08Overlay, diffs []c08Diff) string {
-	cur := before.Depth()
-	if o.kind == "start" {
-		cur++
-	} else if o.kind == "commit" || o.kind == "rollback" {
-		cur--
+// c08Pre is what is read from the real object before an operation, for the explanation of mismatches.
+type c08Pre struct {
+	marker    bool              // the child's name carries a deletion mark in the innermost transaction
+	bothMarks map[string]bool   // child keys held both as upsert and as deletion
+	noMarker  *ref.C08Overlay   // denotation with the mark on the child's name ignored
+}
+
+func c08ReadPre(ts *TrieState) c08Pre {
+	p := c08Pre{bothMarks: c08BothMarks(ts), noMarker: c08PhiOpt(ts, false)}
+	if e := ts.transactions.Back(); e != nil {
+		p.marker = e.Value.(*storageDiff).deletes[c08Child]
 	}
-	flags := map[string]bool{}
-	for _, d := range diffs {
+	return p
+}
+
+// c08AltClear is the overlay clear with up to three named deviations from the pinned semantics:
+//   skipEq:     the backend key equal to the prefix is not found,
+//   stop:       the walk over the sorted union of overlay and backend keys stops when the limit is
+//               exhausted, so overlay keys sorting after that point survive (all of them for limit 0),
+//   notCounted: a backend key that the overlay has overwritten does not count towards the limit.
+// With all three false it is the pinned semantics (checked against the model at run time).
+func c08AltClear(backend ref.OMap, ovIn map[string]ref.C08Entry, prefix string, limit int, skipEq, stop, notCounted bool) ref.OMap {
+	ov := map[string]ref.C08Entry{}
+	for k, e := range ovIn {
+		ov[k] = e
+	}
+	inB := func(k string) bool {
+		_, ok := backend[k]
+		return ok && !(skipEq && k == prefix)
+	}
+	set := map[string]bool{}
+	for k := range backend {
+		if strings.HasPrefix(k, prefix) && inB(k) {
+			set[k] = true
+		}
+	}
+	for k, e := range ov {
+		if strings.HasPrefix(k, prefix) && e.Present {
+			set[k] = true
+		}
+	}
+	var keys []string
+	for k := range set {
+		keys = append(keys, k)
+	}
+	sort.Strings(keys)
+	remaining := limit // < 0: unlimited
+	for _, k := range keys {
+		inO := ov[k].Present
+		if remaining == 0 {
+			if stop {
+				break
+			}
+			if !inO {
+				continue // backend key beyond the limit stays
+			}
+		}
+		ov[k] = ref.C08Entry{}
+		if inB(k) && remaining > 0 && !(notCounted && inO) {
+			remaining--
+		}
+	}
+	v := ref.OMap{}
+	for k, x := range backend {
+		v[k] = x
+	}
+	for k, e := range ov {
+		if e.Present {
+			v[k] = e.Val
+		} else {
+			delete(v, k)
+		}
+	}
+	return v
+}
+
+func c08SameKeys(a, b ref.OMap) bool {
+	l, e, w := c08MapDiff(a, b)
+	return len(l)+len(e)+len(w) == 0
+}
+
+// c08ExplainClear finds the smallest set of the named deviations that reproduces the real view.
+func c08ExplainClear(before *ref.C08Overlay, ns, prefix string, limit int, want, got ref.OMap) string {
+	var backend ref.OMap
+	var ov map[string]ref.C08Entry
+	top := before.Txs[before.Depth()-1]
+	if ns == "main" {
+		backend, ov = before.BMain, top.Main
+	} else {
+		backend, ov = before.BChild[c08Child], top.Child[c08Child]
+		if backend == nil {
+			backend = ref.OMap{}
+		}
+	}
+	if !c08SameKeys(c08AltClear(backend, ov, prefix, limit, false, false, false), want) {
+		panic("c08: c08AltClear without deviations differs from the model")
+	}
+	names := []string{"backend-key-equal-to-the-prefix-survives", "overlay-keys-survive-once-the-limit-is-exhausted", "overwritten-backend-key-not-counted-towards-the-limit"}
+	best := ""
+	bestN := 99
+	for mask := 1; mask < 8; mask++ {
+		if limit < 0 && mask&6 != 0 {
+			continue
+		}
+		if c08SameKeys(c08AltClear(backend, ov, prefix, limit, mask&1 != 0, mask&2 != 0, mask&4 != 0), got) {
+			var p []string
+			for i := 0; i < 3; i++ {
+				if mask&(1<<i) != 0 {
+					p = append(p, names[i])
+				}
+			}
+			if len(p) < bestN {
+				bestN = len(p)
+				best = strings.Join(p, "+")
+			}
+		}
+	}
+	return best
+}
+
+// c08Classify builds the signature of a state mismatch after a mutator from the mismatch itself:
+// every differing namespace is either explained completely by a named deviation (the candidate
+// semantics reproduces the real contents exactly) or rendered as generic flags (catch-all).
+func c08Classify(o c08Op, before, want, got *ref.C08Overlay, pre c08Pre, diffs []c08Diff) string {
+	cur := want.Depth()
+	inTx := before.InTx()
+	var parts []string
+	generic := func(d c08Diff) {
 		where := d.ns
 		if d.level != cur {
 			where = "enclosing-level-" + d.ns // a level that only a later rollback/commit exposes
@@ -271,30 +419,80 @@ func c08Classify(o c08Op, before *ref.C08Overlay, diffs []c08Diff) string {
 				if d.ns == "main" && k == c08Child {
 					q = "+named-like-the-child"
 				}
-				if (o.kind == "clearPrefix" || o.kind == "clearPrefixLimit" || o.kind == "clearPrefixInChild" ||
-					o.kind == "clearPrefixInChildLimit") && k == o.k {
-					q += "+equal-to-the-prefix"
-				}
-				flags[where+":"+dir+":"+cls+q] = true
+				parts = append(parts, where+":"+dir+":"+cls+q)
 			}
 		}
 		add("lost", d.lost)
 		add("kept", d.extra)
 		add("wrong-value", d.wrong)
 	}
-	var fl []string
-	for f := range flags {
-		fl = append(fl, f)
+	mainClear := o.kind == "clearPrefix" || o.kind == "clearPrefixLimit"
+	childClear := o.kind == "clearPrefixInChild" || o.kind == "clearPrefixInChildLimit" || o.kind == "deleteChild" || o.kind == "deleteChildLimit"
+	only := func(keys []string, k string) bool { return len(keys) == 1 && keys[0] == k }
+	for _, d := range diffs {
+		if d.level != cur {
+			generic(d)
+			continue
+		}
+		gotView, wantView := got.MainViewAt(cur), want.MainViewAt(cur)
+		if d.ns == "child" {
+			gotView, wantView = got.ChildViewAt(cur, c08Child), want.ChildViewAt(cur, c08Child)
+		}
+		switch {
+		case inTx && mainClear && d.ns == "main", inTx && childClear && d.ns == "child":
+			prefix, limit := o.k, o.limit
+			if o.kind == "deleteChild" || o.kind == "deleteChildLimit" {
+				prefix = ""
+			}
+			if o.kind == "clearPrefix" || o.kind == "clearPrefixInChild" || o.kind == "deleteChild" {
+				limit = -1
+			}
+			if ex := c08ExplainClear(before, d.ns, prefix, limit, wantView, gotView); ex != "" {
+				parts = append(parts, ex)
+			} else {
+				generic(d)
+			}
+		case inTx && d.ns == "child" && (mainClear || (o.kind == "delete" && o.k == c08Child)) && len(gotView) == 0 && !pre.marker:
+			// the main key named like the child got its deletion mark, and with it the child
+			parts = append(parts, "name-collision:deleting-the-main-key-named-like-the-child-kills-the-child")
+		case inTx && d.ns == "main" && childClear && only(d.lost, c08Child) && len(d.extra)+len(d.wrong) == 0:
+			parts = append(parts, "name-collision:killing-the-child-deletes-the-main-key-named-like-it")
+		case inTx && d.ns == "child" && o.kind == "put" && o.k == c08Child && pre.marker && c08SameKeys(gotView, pre.noMarker.ChildViewAt(cur, c08Child)):
+			parts = append(parts, "name-collision:putting-the-main-key-named-like-the-child-revives-the-killed-child")
+		case inTx && d.ns == "main" && o.kind == "setChild" && pre.marker && only(d.extra, c08Child) && len(d.lost)+len(d.wrong) == 0:
+			parts = append(parts, "name-collision:writing-into-the-child-revives-the-deleted-main-key-named-like-it")
+		case inTx && d.ns == "child" && o.kind == "setChild" && pre.marker && len(d.lost)+len(d.wrong) == 0:
+			// candidate: the kill is forgotten, the backend keys (and pending child changes) are back
+			cand := pre.noMarker.ChildViewAt(cur, c08Child)
+			cand[o.k] = o.v
+			if c08SameKeys(gotView, cand) {
+				parts = append(parts, "writing-into-a-killed-child-revives-its-backend-keys")
+			} else {
+				generic(d)
+			}
+		case o.kind == "commit" && d.ns == "child" && len(d.extra)+len(d.wrong) == 0 && len(pre.bothMarks) > 0 && func() bool {
+			for _, k := range d.lost {
+				if !pre.bothMarks[k] {
+					return false
+				}
+			}
+			return true
+		}():
+			parts = append(parts, "child-key-deleted-then-set-in-one-transaction-is-deleted-by-the-commit")
+		case o.kind == "commit" && d.ns == "main" && pre.marker && only(d.extra, c08Child) && len(d.lost)+len(d.wrong) == 0:
+			parts = append(parts, "name-collision:commit-removes-the-child-instead-of-the-main-key-named-like-it")
+		case !inTx && o.kind == "deleteChildLimit" && o.limit == 0 && d.ns == "child" && len(gotView) == 0:
+			parts = append(parts, "limit0-deletes-every-key")
+		default:
+			generic(d)
+		}
 	}
-	sort.Strings(fl)
+	parts = c08Uniq(parts)
 	kind := o.kind
-	if (o.kind == "delete" || o.kind == "put") && o.k == c08Child {
-		kind += "(key-named-like-the-child)"
-	}
 	if o.kind == "deleteChildLimit" && o.limit < 0 {
 		kind = "deleteChildLimit(nil)"
 	}
-	return kind + c08TxTag(before.InTx()) + ":" + strings.Join(fl, ",")
+	return kind + c08TxTag(inTx) + ":" + strings.Join(parts, ",")
 }
 
 func c08DiffString(diffs []c08Diff) string {
@@ -487,13 +685,22 @@ func c08LimitBytes(l int) *[]byte {
 }
 
 // c08CmpRet compares (deleted, allDeleted) of a limited clear where the semantics are unambiguous.
-func c08CmpRet(s *c08State, name string, inTx bool, before *ref.C08Overlay, ns string, res ref.C08ClearResult, del uint32, all bool) {
+func c08CmpRet(s *c08State, name string, inTx bool, before *ref.C08Overlay, ns, prefix string, res ref.C08ClearResult, del uint32, all bool) {
 	if !res.Comparable {
 		s.outcomes = append(s.outcomes, "ret-not-compared(overlay-key-matches)")
 		return
 	}
 	tag := c08TxTag(inTx)
 	unrelated := ""
+	if inTx && ns == "main" {
+		if _, ok := before.BMain[prefix]; ok {
+			unrelated = "+backend-holds-the-key-equal-to-the-prefix"
+		}
+	} else if inTx && prefix != "" {
+		if _, ok := before.BChild[c08Child][prefix]; ok {
+			unrelated = "+backend-holds-the-key-equal-to-the-prefix"
+		}
+	}
 	if inTx {
 		ov := before.Txs[before.Depth()-1].Main
 		if ns == "child" {
@@ -501,7 +708,9 @@ func c08CmpRet(s *c08State, name string, inTx bool, before *ref.C08Overlay, ns s
 		}
 		for _, e := range ov {
 			if e.Present {
-				unrelated = "+overlay-holds-non-matching-keys"
+				if !strings.Contains(unrelated, "non-matching") {
+					unrelated += "+overlay-holds-non-matching-keys"
+				}
 			}
 		}
 	}
@@ -528,8 +737,13 @@ func c08CmpRet(s *c08State, name string, inTx bool, before *ref.C08Overlay, ns s
 }
 
 func c08Apply(s *c08State, o c08Op) string {
+	if o.kind == "init" {
+		c08Populate(s)
+		return ""
+	}
 	before := s.m.Clone()
 	inTx := before.InTx()
+	pre := c08ReadPre(s.ts)
 	child := []byte(c08Child)
 	childExisted := len(before.ChildView(c08Child)) > 0
 	// childErr handles the error of a child operation: "child trie does not exist" is accepted when
@@ -579,7 +793,7 @@ func c08Apply(s *c08State, o c08Op) string {
 			return "ClearPrefixLimit: unexpected error " + err.Error()
 		}
 		res := s.m.ClearPrefix(o.k, o.limit)
-		c08CmpRet(s, "ClearPrefixLimit", inTx, before, "main", res, del, all)
+		c08CmpRet(s, "ClearPrefixLimit", inTx, before, "main", o.k, res, del, all)
 	case "setChild":
 		if err := s.ts.SetChildStorage(child, []byte(o.k), o.v); err != nil {
 			return "SetChildStorage: unexpected error " + err.Error()
@@ -605,7 +819,7 @@ func c08Apply(s *c08State, o c08Op) string {
 		}
 		res := s.m.ClearPrefixInChild(c08Child, "", o.limit)
 		if !skip {
-			c08CmpRet(s, "DeleteChildLimit", inTx, before, "child", res, del, all)
+			c08CmpRet(s, "DeleteChildLimit", inTx, before, "child", "", res, del, all)
 		}
 	case "clearPrefixInChild":
 		err := s.ts.ClearPrefixInChild(child, []byte(o.k))
@@ -621,7 +835,7 @@ func c08Apply(s *c08State, o c08Op) string {
 		}
 		res := s.m.ClearPrefixInChild(c08Child, o.k, o.limit)
 		if !skip {
-			c08CmpRet(s, "ClearPrefixInChildWithLimit", inTx, before, "child", res, del, all)
+			c08CmpRet(s, "ClearPrefixInChildWithLimit", inTx, before, "child", o.k, res, del, all)
 		}
 	default:
 		panic("unknown op " + o.kind)
@@ -632,7 +846,7 @@ func c08Apply(s *c08State, o c08Op) string {
 		return fmt.Sprintf("SIG{%s:wrong-nesting-depth} %s: %d open transactions, want %d", o.kind, o.Name(), real.Depth(), s.m.Depth())
 	}
 	if diffs := c08ModelDiff(s.m, real); len(diffs) > 0 {
-		s.softf(c08Classify(o, before, diffs), "%s on [%s]: %s; real state now [%s], overlay semantics give [%s]",
+		s.softf(c08Classify(o, before, s.m, real, pre, diffs), "%s on [%s]: %s; real state now [%s], overlay semantics give [%s]",
 			o.Name(), c08ModelString(before), c08DiffString(diffs), c08ModelString(real), c08ModelString(s.m))
 		s.m = real // re-synchronise
 	}
@@ -745,6 +959,9 @@ var c08V1, c08V2 = []byte{0x01}, []byte{0x02}
 
 func c08Ops(s *c08State, maxNest int) []verifmc.Op {
 	var ops []verifmc.Op
+	if s.needInit && !s.inited {
+		return []verifmc.Op{c08Op{kind: "init"}}
+	}
 	if s.m.Depth() < maxNest {
 		ops = append(ops, c08Op{kind: "start"})
 	}
@@ -788,25 +1005,28 @@ func c08Ops(s *c08State, maxNest int) []verifmc.Op {
 	return ops
 }
 
-func c08Fresh(populated bool) *c08State {
-	tr := inmemory.NewEmptyTrie()
-	m := ref.C08New()
-	if populated {
-		for _, k := range []string{"c1", "k1", "k2"} {
-			if err := tr.Put([]byte(k), c08V1); err != nil {
-				panic(err)
-			}
-			m.BMain[k] = c08V1
+// c08Populate is the "init(populated)" pseudo operation: the committed state the second exploration
+// starts from (it is the mandatory first operation there, so that replays are self-contained).
+func c08Populate(s *c08State) {
+	tr := s.ts.state
+	for _, k := range []string{"c1", "k1", "k2"} {
+		if err := tr.Put([]byte(k), c08V1); err != nil {
+			panic(err)
 		}
-		m.BChild[c08Child] = ref.OMap{}
-		for _, k := range c08ChildKeys {
-			if err := tr.PutIntoChild([]byte(c08Child), []byte(k), c08V1); err != nil {
-				panic(err)
-			}
-			m.BChild[c08Child][k] = c08V1
-		}
+		s.m.BMain[k] = c08V1
 	}
-	return &c08State{ts: NewTrieState(tr), m: m}
+	s.m.BChild[c08Child] = ref.OMap{}
+	for _, k := range c08ChildKeys {
+		if err := tr.PutIntoChild([]byte(c08Child), []byte(k), c08V1); err != nil {
+			panic(err)
+		}
+		s.m.BChild[c08Child][k] = c08V1
+	}
+	s.inited = true
+}
+
+func c08Fresh(populated bool) *c08State {
+	return &c08State{ts: NewTrieState(inmemory.NewEmptyTrie()), m: ref.C08New(), needInit: populated}
 }
 
 var c08SigRe = "SIG{"
@@ -875,6 +1095,9 @@ func TestVerif_C08(t *testing.T) {
 				return out
 			},
 			Depth: depth,
+		}
+		if populated {
+			h.Depth = depth + 1 // init(populated) is the first operation
 		}
 		h.Explore(r)
 		key := "empty"
